@@ -45,7 +45,7 @@ func cases(tier string) int {
 	if tier == "thorough" {
 		return 2000000
 	}
-	return 20000
+	return 80000
 }
 
 func TestCheck(t *testing.T) {
